@@ -18,6 +18,9 @@ def main():
         ck.finish()
     ck.check_props()
     ck.check_translation("compiler")
+    # the self-checking search itself (compile_target, compile, _case3_best_reordering, _bfs_case3, the nested-commutator check):
+    # Refine/SearchRefine.v proves, on the translation of the current source, that whatever compile_target returns evaluates to the target
+    ck.check_translation("search")
     cases = comp.compile_cases(ck, ck.quick)
     res = ck.impl("c05", cases, per_case_s=120 if ck.quick else 300, procs=15)
     got = [(c, r) for c, r in zip(cases, res) if r.get("out") == "seq"]
